@@ -69,6 +69,9 @@ MUTANTS = [
  ('verbose-whitespace-as-class-again', 'render', 'regexp.rs', 'regexp = regexp.replace(whitespace, &format!("\\\\u{:04x}", whitespace as u32));', 'regexp = regexp.replace(whitespace, "\\\\s");', 'undecided-or-fail', 'verbose.'),
  ('verbose-vt-in-whitespace-list', 'render', 'regexp.rs', "'\\u{2029}', '\\u{202f}', '\\u{205f}', '\\u{3000}',", "'\\u{2029}', '\\u{202f}', '\\u{205f}', '\\u{3000}', '\\u{b}',", 'fail', 'verbose.'),
  ('len-class-counts-zero', 'expr', 'expression.rs', 'Expression::CharacterClass(_, _) => 1,\n            Expression::Concatenation(expr1, expr2, _, _, _) => expr1.len() + expr2.len(),', 'Expression::CharacterClass(_, _) => 0,\n            Expression::Concatenation(expr1, expr2, _, _, _) => expr1.len() + expr2.len(),', 'fail', 'len.word_length'),
+ ('escaper-dot-not-listed', 'escaper', 'grapheme.rs', 'const CHARS_TO_ESCAPE: [&str; 14] = [\n    "(", ")", "[", "]", "{", "}", "+", "*", "-", ".", "?", "|", "^", "$",\n];', 'const CHARS_TO_ESCAPE: [&str; 13] = [\n    "(", ")", "[", "]", "{", "}", "+", "*", "-", "?", "|", "^", "$",\n];', 'fail', 'escaper.every_metacharacter_is_listed'),
+ ('escaper-backslash-after-character', 'escaper', 'grapheme.rs', 'character.replace(char_to_escape, &format!("{}{}", "\\\\", char_to_escape));', 'character.replace(char_to_escape, &format!("{}{}", char_to_escape, "\\\\"));', 'fail', 'escaper.round_prefixes_backslash'),
+ ('escaper-tab-written-as-newline', 'escaper', 'grapheme.rs', ".replace('\\t', \"\\\\t\");", ".replace('\\t', \"\\\\n\");", 'fail', 'escaper.controls_single'),
  ('wasm-wrong-field', 'wasm', 'wasm.rs', 'self.builder.config.is_start_anchor_disabled = true;\n        self.clone()', 'self.builder.config.is_end_anchor_disabled = true;\n        self.clone()', 'fail', 'wasm.withoutStartAnchor'),
 ]
 def _one(repo, m):
